@@ -12,6 +12,7 @@ from typing import Dict, List, Optional
 
 import z3
 
+from . import front
 from .exec import NeedsContract, Out, Unsupported
 from .state import ExcVal, State
 from .sym import (CLS_DICT, CLS_LIST, CLS_SET, INTERN, NONE, TH, V, Val, clsof, exc_is_sub, fresh, hint_kind, mkB, mkI,
@@ -221,6 +222,11 @@ class BuiltinMixin:
             elif n == "tuple":
                 parts.append(V.is_T(z))
             else:
+                # a value whose static type is a (subclass of the) tested repository class is an instance of it
+                ci = self.class_of_val(st, v) if v.th is not None else None
+                if ci is not None and any(c.name == n for c in front.class_mro(ci)):
+                    parts.append(z != NONE if v.th.name == "Optional" else z3.BoolVal(True))
+                    continue
                 sub = ufun("isinst_" + n, IntS, BoolS)
                 parts.append(z3.And(V.is_R(z), sub(clsof(V.r(z)))))
         return z3.Or(parts)
